@@ -209,4 +209,26 @@ theorem lock_plain_reads (a : Api) (hi : Inv a.s) (v : Variant) (h k h0 : Nat) (
   simp only [hos, Bool.false_eq_true, ↓reduceIte, hout, specOp, e2]
   simp [absSpec, lock_plain_vals]
 
+theorem acquire_bool (s : State) (hi : Inv s) (h : Nat) (hd : Handle) (hh : s.hs h = some hd) (hst1 : hd.st = .queued) :
+    ∃ b, (acquire s h).2 = .bool b := by
+  obtain ⟨m, hm, he⟩ := eeid_inv (hi.live h hd hh)
+  have heo : s.entryOf hd = some m := by simp [State.entryOf, hm, he]
+  simp only [acquire, hh, hst1, ↓reduceIte, heo]
+  split <;> exact ⟨_, rfl⟩
+
+/-- polling a pending plain acquisition: it completes exactly when the specification has no guard for the key and this waiter
+first in line; otherwise it stays pending -/
+theorem poll_plain (a : Api) (hi : Inv a.s) (h : Nat) (hd : Handle) (hh : a.s.hs h = some hd) (hq : hd.st = .queued)
+    (hos : a.ownedByStream h = false) (hsu : a.susp.lookup h = none) :
+    ((a.exec (.poll h)).2.res.isGuard = true ↔
+      ((absSpec a.s).held hd.key = none ∧ ((absSpec a.s).waiting hd.key).head? = some h)) ∧
+    ((match (a.exec (.poll h)).2.res with | .pending => True | _ => False) ↔
+      ¬ ((absSpec a.s).held hd.key = none ∧ ((absSpec a.s).waiting hd.key).head? = some h)) := by
+  have hg := acquire_iff_grantable a.s hi h hd hh hq
+  obtain ⟨b, hb⟩ := acquire_bool a.s hi h hd hh hq
+  unfold Api.exec
+  simp only [hos, Bool.false_eq_true, ↓reduceIte, hsu, hb]
+  rw [← hg, hb]
+  cases b <;> simp [Res.isGuard]
+
 end Lockable
